@@ -1479,15 +1479,23 @@ func (e *c04Env) witnessLifecycle() {
 	e.withdraw(3, 0, 1, e.poolCoinBalance(0, 3, 1).QuoRaw(4), false)
 	e.nextBlock(5)
 	e.nextBlock(5)
-	// farming
-	e.farm(3, 2, 1, e.poolCoinBalance(2, 3, 1).QuoRaw(2), false)
-	e.nextBlock(10)
-	e.farm(3, 2, 1, e.poolCoinBalance(2, 3, 1).QuoRaw(2), false)
+	// farming: three queue entries of different ages; only the oldest matures; unfarm across entries and into the active position
+	q := e.poolCoinBalance(2, 3, 1).QuoRaw(5)
+	e.farm(3, 2, 1, q, false)
+	e.nextBlock(36000) // +10 h
+	e.farm(3, 2, 1, q.MulRaw(2), false)
+	e.nextBlock(36000) // +20 h
+	e.farm(3, 2, 1, q, false)
 	e.unfarm(3, 2, 1, n(10), false)
-	e.nextBlock(86400 + 5) // both queue entries mature
+	e.nextBlock(14400 + 5) // 24 h + 5 s after the first entry: it alone is mature
 	e.nextBlock(5)
+	e.nextBlock(5) // app 3 executes every second block: one of these two EndBlockers activates the oldest entry
+	e.unfarm(3, 2, 1, q.AddRaw(1000), false)             // the newest entry and a bit of the middle one
+	e.unfarm(3, 2, 1, q.MulRaw(2).AddRaw(500), false)    // the rest of the queue and part of the active position
 	e.farm(3, 2, 1, n(1000), false)
 	e.unfarm(3, 2, 1, n(1500), false) // across the queue into the active position
+	e.nextBlock(86400 + 5)
+	e.nextBlock(5)
 	e.unfarmAndWithdraw(3, 3, 1, n(100_000))
 	e.nextBlock(5)
 	// the creator of pool 3 withdraws the entire supply: supply 0 => disabled
